@@ -14,7 +14,7 @@ from pyvc import prims
 from pyvc.contract import LoopSpec, Outcome, Spec
 from pyvc.engine import ContractStale, bytes_num
 from pyvc.ground import All
-from pyvc.values import (B, I, NONE, VBytes, VInt, VRef, VStr, fresh_name)
+from pyvc.values import (B, I, NONE, VBytes, VInt, VNone, VRef, VStr, VTuple, fresh_name)
 
 from . import fsmodel as M
 from .common import inst
@@ -186,3 +186,74 @@ class ScanForward(ScanSpec):
 
 SPECS = [ScanBackward, ScanForward]
 INLINE = ['ZODB.utils:u64']
+
+
+# ======================================================================================
+class RecordIternext(Spec):
+    """FileStorage.record_iternext(next): the record of the SMALLEST oid of the index that is >= next (the smallest
+    of all for None), loaded as current, together with the smallest oid after it (None when there is none): iterating
+    with the returned value visits every oid of the index exactly once, in order (C19: "record iteration relies on
+    smallest-key-not-below"; fsIndex.minKey itself: contracts/fsindex.py).  load_current is an assumed call."""
+    func = 'ZODB.FileStorage.FileStorage:FileStorage.record_iternext'
+    props = ('C19',)
+    cases = ('from-the-start', 'from-an-oid')
+
+    def setup(self, c, case=None):
+        h = M.mk_fs(c, in_txn=False, with_ghost=False)
+        c.ghost[('fs', h.self.id)] = h
+        o = c.obj(h.index)
+        o.meta['role'] = 'oid'
+        c.roles.array(o.f['dom'], 'oid')
+        nxt = c.fresh_bytes(8, 'next') if case == 'from-an-oid' else NONE
+        c.ghost['ri'] = {'h': h, 'next': nxt}
+        return {'self': h.self, 'next': nxt}
+
+    def requires(self, c, E):
+        dom = c.obj(c.ghost['ri']['h'].index).f['dom']
+        # the all-ones oid (whose successor does not fit eight bytes) is never allocated: new_oid refuses to go there
+        return [('OID-RANGE.no-all-ones-oid', All(['oid'], lambda t: z3.Implies(z3.Select(dom, t), t < 2 ** 64 - 1)))]
+
+    def hooks(self, c):
+        def load_current(cc, args, kwargs, node):
+            cc.event('load_current', args[1])
+            return VTuple([cc.fresh_opaque('data'), cc.fresh_bytes(8, 'tid')])
+        return {'call:ZODB.utils:load_current': load_current}
+
+    def modifies(self, c, E):
+        return {(c.ghost['ri']['h'].file.id, 'pos')}
+
+    def outcomes(self, c, E):
+        g = c.ghost['ri']
+        dom = c.obj(g['h'].index).f['dom']
+        has = lambda t: z3.And(z3.Select(dom, t), t >= 0, t < 2 ** 64)
+        lo = None if isinstance(g['next'], VNone) else bytes_num(c, g['next'])
+        cand = (lambda t: has(t)) if lo is None else (lambda t: z3.And(has(t), t >= lo))
+
+        def post(cc, E, r):
+            if not (isinstance(r, VTuple) and len(r.items) == 4 and isinstance(r.items[0], VBytes)):
+                return [('returns-(oid, tid, data, next oid)', False)]
+            oid, tid, data, nx = r.items
+            o = bytes_num(cc, oid)
+            cc.roles.seed('oid', o)
+            loads = [e for e in cc.events if e[0] == 'load_current']
+            out = [('oid-is-in-the-index-and-not-below-next', cand(o)),
+                   ('no-smaller-candidate-is-skipped', All(['oid'], lambda t: z3.Implies(cand(t), o <= t))),
+                   ('its-current-record-is-loaded', len(loads) == 1 and isinstance(loads[0][1], VBytes) and
+                    bytes_num(cc, loads[0][1]) == o)]
+            if isinstance(nx, VNone):
+                out.append(('next-None-only-if-no-larger-oid', All(['oid'], lambda t: z3.Implies(has(t), t <= o))))
+            elif isinstance(nx, VBytes) and nx.conc_len() == 8:
+                n = bytes_num(cc, nx)
+                cc.roles.seed('oid', n)
+                out += [('next-is-a-larger-oid-of-the-index', z3.And(has(n), n > o)),
+                        ('next-is-the-least-larger-oid', All(['oid'], lambda t: z3.Implies(
+                            z3.And(has(t), t > o), n <= t)))]
+            else:
+                out.append(('next-is-an-oid-or-None', False))
+            return out
+        return [Outcome('record', post=post, result=lambda cc, E: cc.fresh_opaque('record')),
+                Outcome('nothing-at-or-after-next', 'raise', 'builtins:ValueError',
+                        post=lambda cc, E, x: [('only-if-no-candidate', All(['oid'], lambda t: z3.Not(cand(t))))])]
+
+
+SPECS.append(RecordIternext)
